@@ -170,6 +170,9 @@ def run_special(pid, tier, seed, work, cfg):
         if cj["status"] != ci["status"]:
             res["violations"].append({"key": "C19:branch", "what": f"compiled raised/returned {cj['status']} but the interpreter {ci['status']}", "replay": cj["desc"]})
             continue
+        if set(cj["values"]) != set(ci["values"]):
+            res["violations"].append({"key": "C19:branch", "what": f"compiled produced {sorted(cj['values'])} but the interpreter {sorted(ci['values'])}", "replay": cj["desc"]})
+            continue
         for name in cj["values"]:
             a = [float.fromhex(x) for x in cj["values"][name]]
             b = [float.fromhex(x) for x in ci["values"][name]]
